@@ -8,7 +8,7 @@ CLAIMED = {
  "C03": ("exploration", "5.C03", "full census of every collateral holder (read from the raw chain dump, so unexpected holders are seen) before/after every transaction in cw20 and native worlds; total conserved, only sender/engine/insurance fund/fee pool move, liquidated trader receives nothing", "seeded deterministic simulation: balance census and transfer ledger per transaction, both collateral kinds, injected faults"),
  "C04": ("exploration", "5.C04", "every successful close in seeded histories (price moves by others, funding in both signs, fees, deposits/withdrawals, vault shortfalls) is compared with the reference equity computed from pre-state queries and the vAMM's quote movement; bad-debt closes must be refused; insurance-fund drawdown by trader actions bounded by the prepaid bad debt recorded", "seeded deterministic simulation: reference-model comparison of close payouts from the transfer ledger"),
  "C05": ("exploration", "5.C05", "after every successful open the reference margin ratio (smaller-magnitude of spot/TWAP PnL, funding included) is compared with maintenance and with the engine's own query; boundary leverage values are attempted; withdrawals/deposits compared with exact margin and wallet movements and free collateral", "seeded deterministic simulation: reference-model comparison after each trader action with boundary-biased inputs"),
- "C06": ("exploration", "5.C06", "every Liquidate attempt (any caller, healthy and unhealthy targets) is judged against the reference liquidation ratio (spot/TWAP smaller magnitude, oracle override at >=10% spread) computed from pre-state queries; payouts of full and partial liquidations compared with the ledger", "seeded deterministic simulation: reference-model comparison of liquidation admission and payouts"),
+ "C06": ("exploration", "5.C06", "every Liquidate attempt (any caller, healthy and unhealthy targets) is judged against the reference liquidation ratio (spot/TWAP smaller magnitude, oracle override at >=10% spread) computed before the call from the vAMM's quote for the closing trade, the harness's own 15-minute TWAP of the recorded reserves and the price the feed contract itself reports; payouts of full and partial liquidations compared with the ledger", "seeded deterministic simulation: reference-model comparison of liquidation admission and payouts"),
  "C07": ("exploration", "5.C07", "liveness by fork-and-probe: at sampled states, for every position whose reference liquidation ratio is below maintenance and for which every stated precondition holds (open, registered, fillable, inside band, fee non-zero, oracle price non-zero, insurance fund topped up in the fork), one Liquidate by a rotating account must succeed - bounded progress of one transaction, both oracle implementations", "seeded deterministic simulation: bounded-liveness probes in forks of the simulated chain once faults have stopped"),
  "C08": ("fault_enumeration", "5.C08", "for each sampled (state, engine operation) every single sub-message index of the message tree is failed in turn: the call must return an error, the whole-chain dump must equal the pre-state, a fault-free retry must reproduce the dry run; no tmp-swap / sent-funds / tmp-liquidator key after any transaction", "deterministic simulation with exhaustive single-fault injection over the sub-message tree of sampled (state, operation) pairs"),
  "C09": ("fault_enumeration", "5.C09", "Byzantine-sender matrix in forks at sampled states and after every role transfer: every privileged execute variant of all five contracts x every sender kind (current and former role holders, contract addresses, traders, strangers); a sender the role model does not entitle must fail and leave the whole-chain dump unchanged", "deterministic simulation: enumerated sender x message matrix in forks, across role transfers"),
